@@ -483,4 +483,339 @@ theorem conc_quiescent_view {C : Conc} (hq : ¬ C.enabledInternal) {r : Nat} {v 
           exact hq ⟨r', e', hi', by simp [Conc.step, hv2, hal, hs3]⟩
       | _ => simp [Conc.allows] at ha
 
+/-! ### fairness split into its two sources: the Go scheduler and the pool -/
+
+/-- fairness demanded only from tick `N` on (all the liveness proof uses) -/
+def Exec.FairFrom (X : Exec) (N : Nat) : Prop :=
+  ∀ n, N ≤ n → (X.C n).enabledInternal → ∃ m, n ≤ m ∧ X.tookInternal m
+
+/-- a task of some cascade waits in the queue -/
+def Conc.taskQueued (C : Conc) : Prop :=
+  ∃ (r : Nat) (v : State) (i : Nat) (m : Mon), C.view r = some v ∧ v.mons[i]? = some m ∧ m.phase = .queued
+
+/-- a worker is inside a task of some cascade (running its rules, handling its error) -/
+def Conc.taskRunning (C : Conc) : Prop :=
+  ∃ (r : Nat) (v : State) (j : Nat) (m : Mon) (w : Nat), C.view r = some v ∧ v.mons[j]? = some m ∧ m.phase.worker = some w
+
+/-- at tick `m` a worker takes a task from the queue -/
+def Exec.tookPop (X : Exec) (m : Nat) : Prop :=
+  ∃ r w i, X.ev m = some (.at r (.pop w i)) ∧ (Conc.stepE (X.C m) (.at r (.pop w i))).isSome = true
+
+/-- SCHEDULER side (F1 of C09's header; assumed): from `N` on, whenever an engine step OTHER than a pop
+    is enabled — a worker inside a task, the poster, a pending callback, the queue clean-up: a runnable
+    goroutine — an engine step is eventually taken -/
+def Exec.SchedFairFrom (X : Exec) (N : Nat) : Prop :=
+  ∀ n, N ≤ n → (∃ r e, e.internal = true ∧ e.isPop = false ∧ ((X.C n).step r e).isSome = true) →
+    ∃ m, n ≤ m ∧ X.tookInternal m
+
+/-- POOL side (what C09 provides, see `fairFrom_of_scheduler_and_pool`): from `N` on, whenever a task
+    is queued, at some later tick a worker pops a task, or a worker is inside a task (the pool is
+    busy; then the scheduler side applies to that worker) -/
+def Exec.PoolStartsFrom (X : Exec) (N : Nat) : Prop :=
+  ∀ n, N ≤ n → (X.C n).taskQueued → ∃ m, n ≤ m ∧ (X.tookPop m ∨ (X.C m).taskRunning)
+
+theorem queued_of_pop_enabled {C : Conc} {r w i : Nat} (h : (C.step r (.pop w i)).isSome = true) : C.taskQueued := by
+  simp only [Conc.step] at h
+  split at h
+  · cases h
+  · rename_i v hv
+    split at h
+    · cases hs : step v (.pop w i) with
+      | none => simp [hs] at h
+      | some v' =>
+        simp only [step] at hs
+        split at hs
+        · split at hs
+          · rename_i m hm
+            split at hs
+            · rename_i hph
+              exact ⟨r, v, i, m, hv, hm, hph⟩
+            · cases hs
+          · cases hs
+        · cases hs
+    · cases h
+
+theorem nonpop_enabled_of_running {C : Conc} (h : C.taskRunning) :
+    ∃ r e, e.internal = true ∧ e.isPop = false ∧ (C.step r e).isSome = true := by
+  obtain ⟨r, v, j, m, w, hv, hm, hw⟩ := h
+  obtain ⟨e, hi, hnp, hs⟩ := busy_step hm hw
+  cases hse : step v e with
+  | none => simp [hse] at hs
+  | some v' =>
+    have hal : C.allows e = true := by cases e <;> simp_all [Conc.allows, Event.isPop]
+    exact ⟨r, e, hi, hnp, by simp [Conc.step, hv, hal, hse]⟩
+
+theorem tookInternal_of_tookPop {X : Exec} {m : Nat} (h : X.tookPop m) : X.tookInternal m := by
+  obtain ⟨r, w, i, he, hs⟩ := h
+  exact ⟨.at r (.pop w i), he, rfl, hs⟩
+
+theorem fairFrom_of_parts {X : Exec} {N : Nat} (hs : X.SchedFairFrom N) (hp : X.PoolStartsFrom N) : X.FairFrom N := by
+  intro n hn ⟨r, e, hi, hen⟩
+  cases hpop : e.isPop with
+  | false => exact hs n hn ⟨r, e, hi, hpop, hen⟩
+  | true =>
+    cases e with
+    | pop w i =>
+      obtain ⟨m, hnm, h⟩ := hp n hn (queued_of_pop_enabled hen)
+      rcases h with h | h
+      · exact ⟨m, hnm, tookInternal_of_tookPop h⟩
+      · obtain ⟨m', hmm', ht⟩ := hs m (by omega) (nonpop_enabled_of_running h)
+        exact ⟨m', by omega, ht⟩
+    | _ => simp [Event.isPop] at hpop
+
+/-- `fair_quiescence` with fairness demanded only from `N` on -/
+theorem fair_quiescence_from (X : Exec) {N : Nat} (hf : X.FairFrom N) (ha : X.AddsStopAt N) :
+    ∃ n, N ≤ n ∧ ¬ (X.C n).enabledInternal := by
+  suffices ∀ k n, N ≤ n → (X.C n).work ≤ k → ∃ m, n ≤ m ∧ ¬ (X.C m).enabledInternal by
+    obtain ⟨m, hm, hq⟩ := this _ N (Nat.le_refl _) (Nat.le_refl _)
+    exact ⟨m, hm, hq⟩
+  intro k
+  induction k with
+  | zero =>
+    intro n hn hk
+    by_cases hq : (X.C n).enabledInternal
+    · obtain ⟨m, hm, ht⟩ := hf n hn hq
+      obtain ⟨d, rfl⟩ := Nat.exists_eq_add_of_le hm
+      have h1 := exec_work_mono X ha hn d
+      have h2 := (exec_work_step X ha (n := n + d) (by omega)).2 ht
+      omega
+    · exact ⟨n, Nat.le_refl _, hq⟩
+  | succ k ih =>
+    intro n hn hk
+    by_cases hq : (X.C n).enabledInternal
+    · obtain ⟨m, hm, ht⟩ := hf n hn hq
+      obtain ⟨d, rfl⟩ := Nat.exists_eq_add_of_le hm
+      have h1 := exec_work_mono X ha hn d
+      have h2 := (exec_work_step X ha (n := n + d) (by omega)).2 ht
+      obtain ⟨m', hm', hq'⟩ := ih (n + d + 1) (by omega) (by omega)
+      exact ⟨m', by omega, hq'⟩
+    · exact ⟨n, Nat.le_refl _, hq⟩
+
+/-! ### an execution built from a finite run
+
+`execOfRun` turns a finite run `Conc.run C0 es = some Cf` into the infinite execution that performs
+the events of `es` one per tick — every one of them is taken, none stutters — and rests afterwards. -/
+
+theorem run_append (C0 : Conc) (l1 l2 : List ConcEvent) :
+    Conc.run C0 (l1 ++ l2) = (Conc.run C0 l1).bind fun C1 => Conc.run C1 l2 := by
+  simp [Conc.run, List.foldlM_append]
+
+theorem run_take_step {C0 Cf : Conc} {es : List ConcEvent} (h : Conc.run C0 es = some Cf) {n : Nat}
+    (hn : n < es.length) :
+    ∃ Cn Cn1, Conc.run C0 (es.take n) = some Cn ∧ Conc.stepE Cn es[n] = some Cn1 ∧
+      Conc.run C0 (es.take (n + 1)) = some Cn1 := by
+  have h' : Conc.run C0 (es.take n ++ (es[n] :: es.drop (n + 1))) = some Cf := by
+    rw [← List.drop_eq_getElem_cons hn, List.take_append_drop]; exact h
+  rw [run_append] at h'
+  cases hrun : Conc.run C0 (es.take n) with
+  | none => simp [hrun] at h'
+  | some Cn =>
+    simp only [hrun, Option.bind_some] at h'
+    simp only [Conc.run, List.foldlM_cons] at h'
+    cases hstep : Conc.stepE Cn es[n] with
+    | none => simp [hstep] at h'
+    | some Cn1 =>
+      refine ⟨Cn, Cn1, rfl, hstep, ?_⟩
+      rw [List.take_succ_eq_append_getElem hn, run_append, hrun]
+      simp [Conc.run, hstep]
+
+def execState (C0 : Conc) (es : List ConcEvent) (n : Nat) : Conc := (Conc.run C0 (es.take n)).getD C0
+
+theorem execState_step {C0 Cf : Conc} {es : List ConcEvent} (h : Conc.run C0 es = some Cf) {n : Nat}
+    (hn : n < es.length) :
+    Conc.stepE (execState C0 es n) es[n] = some (execState C0 es (n + 1)) := by
+  obtain ⟨Cn, Cn1, h1, h2, h3⟩ := run_take_step h hn
+  simp [execState, h1, h2, h3]
+
+theorem execState_final {C0 Cf : Conc} {es : List ConcEvent} (h : Conc.run C0 es = some Cf) {n : Nat}
+    (hn : es.length ≤ n) : execState C0 es n = Cf := by
+  simp [execState, List.take_of_length_le hn, h]
+
+/-- the execution that performs `es` (one event per tick, all of them succeed) and then rests -/
+def execOfRun (C0 Cf : Conc) (es : List ConcEvent) (h0 : C0.Reachable) (h : Conc.run C0 es = some Cf) : Exec where
+  C := execState C0 es
+  ev := fun n => es[n]?
+  start := by simpa [execState, Conc.run] using h0
+  next := by
+    intro n
+    by_cases hn : n < es.length
+    · simp only [List.getElem?_eq_getElem hn]
+      rw [execState_step h hn]
+      rfl
+    · have hn' : es.length ≤ n := by omega
+      simp only [List.getElem?_eq_none hn']
+      rw [execState_final h hn', execState_final h (by omega)]
+
+/-- such an execution is fair when its last event is an engine step and its final state is quiescent:
+    from every tick before the end the last tick takes an engine step; afterwards nothing is enabled -/
+theorem execOfRun_fair {C0 Cf : Conc} {es : List ConcEvent} (h0 : C0.Reachable) (h : Conc.run C0 es = some Cf)
+    (hne : es ≠ []) (hlast : (es.getLast hne).internal = true) (hq : ¬ Cf.enabledInternal) :
+    (execOfRun C0 Cf es h0 h).Fair := by
+  intro n hen
+  by_cases hn : n < es.length
+  · have hpos : 0 < es.length := by omega
+    have hm : es.length - 1 < es.length := by omega
+    refine ⟨es.length - 1, by omega, es[es.length - 1], ?_, ?_, ?_⟩
+    · show es[es.length - 1]? = _
+      exact List.getElem?_eq_getElem hm
+    · rw [List.getLast_eq_getElem] at hlast; exact hlast
+    · show (Conc.stepE (execState C0 es (es.length - 1)) es[es.length - 1]).isSome = true
+      rw [execState_step h hm]; rfl
+  · exfalso
+    have : (execOfRun C0 Cf es h0 h).C n = Cf := execState_final h (by omega)
+    rw [this] at hen
+    exact hq hen
+
+/-- … and its additions stop at `N` when no event from position `N` on adds work -/
+theorem execOfRun_addsStop {C0 Cf : Conc} {es : List ConcEvent} (h0 : C0.Reachable) (h : Conc.run C0 es = some Cf)
+    {N : Nat} (hN : (es.drop N).all (fun e => !e.adds) = true) : (execOfRun C0 Cf es h0 h).AddsStopAt N := by
+  intro n hn e he
+  have he' : es[n]? = some e := he
+  obtain ⟨hlt, heq⟩ := List.getElem?_eq_some_iff.mp he'
+  have hmem : e ∈ es.drop N := by
+    apply List.mem_drop_iff_getElem.mpr
+    exact ⟨n - N, by omega, by simp [show N + (n - N) = n by omega, heq]⟩
+  have := List.all_eq_true.mp hN e hmem
+  simpa using this
+
+/-! ### a concrete execution: root event + two child events, one failing, two workers -/
+
+/-- the events of the witness run: `AddEventAndWait` on a new root (register, handler observer,
+    push), worker 0 runs the root's rule which adds two children, worker 1 runs child 1 (its rule
+    fails: SetErrors, Finish, error observer), worker 0 runs child 2, the last finisher posts, the
+    three callbacks run, the wait returns -/
+def wEvs : List ConcEvent := [.newRoot, .at 0 .register, .at 0 .regHandler, .at 0 (.addEvent 0 true [0]),
+  .at 0 (.pop 0 0), .at 0 (.newChild 0), .at 0 (.addEvent 1 true [0]), .at 0 (.newChild 0), .at 0 (.addEvent 2 true [0]),
+  .at 0 (.pop 1 1), .at 0 (.ruleReturns 0 true), .at 0 (.ruleReturns 1 false), .at 0 (.taskDone 0), .at 0 (.pop 0 2),
+  .at 0 (.taskDone 1), .at 0 (.ruleReturns 2 true), .at 0 (.setErrors 1), .at 0 (.taskDone 2), .at 0 (.errFinish 1),
+  .at 0 (.notified 1), .at 0 .dropQueue, .at 0 .post, .at 0 (.observerRuns .wait), .at 0 .waitReturns,
+  .at 0 (.observerRuns .handler), .at 0 (.observerRuns .queue)]
+
+/-- the cascade's state at the end of the witness run -/
+def wEnd : State :=
+  { workers := 2, failFirst := false,
+    mons := [{ parent := none, phase := .done },
+             { parent := some 0, phase := .done, failed := [0], err := some [0], inErrors := true },
+             { parent := some 0, phase := .done }],
+    unfinished := 0, posted := 1, waiting := true, handlerReg := true, released := 1, waitReturned := true,
+    handlerCalls := 1 }
+
+def wC : Conc := { workers := 2, failFirst := false, roots := [wEnd.local] }
+
+theorem wRun : Conc.run (Conc.init 2 false) wEvs = some wC := rfl
+
+theorem wEnd_quiescent : ∀ e, e.internal = true → step wEnd e = none := by
+  intro e he
+  cases e with
+  | pop w i => rcases i with _ | _ | _ | i <;> simp [step, wEnd]
+  | ruleReturns i ok => rcases i with _ | _ | _ | i <;> simp [step, wEnd]
+  | taskDone i => rcases i with _ | _ | _ | i <;> simp [step, wEnd]
+  | setErrors i => rcases i with _ | _ | _ | i <;> simp [step, wEnd]
+  | errFinish i => rcases i with _ | _ | _ | i <;> simp [step, wEnd]
+  | notified i => rcases i with _ | _ | _ | i <;> simp [step, wEnd]
+  | dropQueue => decide
+  | post => decide
+  | observerRuns o => cases o <;> decide
+  | _ => simp [Event.internal] at he
+
+theorem wC_quiescent : ¬ wC.enabledInternal := by
+  rintro ⟨r, e, he, hs⟩
+  have hview : wC.view 0 = some wEnd := rfl
+  cases r with
+  | zero =>
+    simp only [Conc.step, hview] at hs
+    split at hs
+    · rw [wEnd_quiescent e he] at hs; cases hs
+    · cases hs
+  | succ r => simp [Conc.step, Conc.view, wC] at hs
+
+/-- the witness execution: one event of `wEvs` per tick, then rest -/
+def wExec : Exec := execOfRun (Conc.init 2 false) wC wEvs ⟨2, false, [], rfl⟩ wRun
+
+theorem wExec_fair : wExec.Fair :=
+  execOfRun_fair _ wRun (by decide) (by decide) wC_quiescent
+
+theorem wExec_addsStop : wExec.AddsStopAt 9 :=
+  execOfRun_addsStop _ wRun (by decide)
+
+/-- no tick of the run stutters: each of the 26 events is enabled when it is attempted -/
+theorem wExec_no_stutter : ∀ n, n < 26 → ∃ e, wExec.ev n = some e ∧
+    Conc.stepE (wExec.C n) e = some (wExec.C (n + 1)) := by
+  intro n hn
+  have hn' : n < wEvs.length := hn
+  exact ⟨wEvs[n], List.getElem?_eq_getElem hn', execState_step wRun hn'⟩
+
+theorem handed_of_roots {C : Conc}
+    (h : C.roots.all (fun s => decide (0 < s.workers) && s.mons.all (fun m => m.phase != .fresh)) = true) :
+    ∀ r v, C.view r = some v → 0 < v.workers ∧ ∀ m ∈ v.mons, m.phase ≠ .fresh := by
+  intro r v hv
+  rw [view_eq] at hv
+  obtain ⟨s0, hs0, hs0v⟩ := Option.map_eq_some_iff.mp hv
+  have := List.all_eq_true.mp h s0 (List.mem_of_getElem? hs0)
+  simp only [Bool.and_eq_true, decide_eq_true_eq, List.all_eq_true] at this
+  subst hs0v
+  refine ⟨this.1, ?_⟩
+  intro m hm
+  have := this.2 m hm
+  simpa using this
+
+
+/-- the shared system at tick 9 of the witness run: the root's action is executing (worker 0), both
+    children are queued, the three observers are registered -/
+def wC9 : Conc :=
+  { workers := 2, failFirst := false,
+    roots := [{ workers := 2, failFirst := false,
+                mons := [{ parent := none, phase := .running 0, todo := [0] },
+                         { parent := some 0, phase := .queued, todo := [0] },
+                         { parent := some 0, phase := .queued, todo := [0] }],
+                unfinished := 3, waiting := true, handlerReg := true }],
+    table := [(0, .wait), (0, .handler), (0, .queue)], pending := [], queues := [0] }
+
+theorem wRun9 : Conc.run (Conc.init 2 false) (wEvs.take 9) = some wC9 := rfl
+
+theorem wExec_at_9 : wExec.C 9 = wC9 := by
+  show execState (Conc.init 2 false) wEvs 9 = wC9
+  unfold execState
+  rw [wRun9]
+  rfl
+
+theorem wExec_handed_at_9 : ∀ r v, (wExec.C 9).view r = some v → 0 < v.workers ∧ ∀ m ∈ v.mons, m.phase ≠ .fresh := by
+  rw [wExec_at_9]
+  exact handed_of_roots (by decide)
+
+theorem wExec_final : wExec.C 26 = wC := by
+  show execState (Conc.init 2 false) wEvs 26 = wC
+  have hlen : wEvs.length ≤ 26 := by decide
+  exact execState_final wRun hlen
+
+theorem noQueued_of_roots {C : Conc}
+    (h : C.roots.all (fun s => s.mons.all (fun m => m.phase != .queued)) = true) : ¬ C.taskQueued := by
+  rintro ⟨r, v, i, m, hv, hm, hph⟩
+  rw [view_eq] at hv
+  obtain ⟨s0, hs0, hs0v⟩ := Option.map_eq_some_iff.mp hv
+  have h1 := List.all_eq_true.mp h s0 (List.mem_of_getElem? hs0)
+  subst hs0v
+  have hm' : s0.mons[i]? = some m := hm
+  have h2 := List.all_eq_true.mp h1 m (List.mem_of_getElem? hm')
+  simp [hph] at h2
+
+theorem wNoQueuedB : ∀ k, k < 12 →
+    ((execState (Conc.init 2 false) wEvs (14 + k)).roots.all fun s => s.mons.all fun m => m.phase != .queued) = true := by
+  decide
+
+/-- after tick 13 of the witness run (the second child popped) no task is queued any more -/
+theorem wExec_no_queued_after_13 : ∀ n, 14 ≤ n → ¬ (wExec.C n).taskQueued := by
+  intro n hn
+  by_cases h26 : 26 ≤ n
+  · have hlen : wEvs.length ≤ n := by
+      have : wEvs.length = 26 := by decide
+      omega
+    have : wExec.C n = wC := execState_final wRun hlen
+    rw [this]
+    exact noQueued_of_roots (by decide)
+  · have hk : n - 14 < 12 := by omega
+    have := wNoQueuedB (n - 14) hk
+    rw [show 14 + (n - 14) = n by omega] at this
+    exact noQueued_of_roots this
+
 end Ecal.Cascade
